@@ -110,10 +110,7 @@ def slice_length(length: int, idx: AxisIndex) -> Optional[int]:
         return None
     if not isinstance(idx, slice):
         raise ValueError(f"Index expression {idx} is of an unrecognized type.")
-    start, stop, stride = idx.indices(length)
-    if start > stop:
-        start = stop
-    return (stop - start + stride - 1) // stride
+    return len(range(*idx.indices(length)))
 
 
 def indexed_shape(shape: Shape, idx: ArrayIndex) -> Tuple[int, ...]:
